@@ -311,11 +311,29 @@ fn raw_literals(literals: &[u8], writer: &mut BitWriter<&mut Vec<u8>>) {
     writer.append_bytes(literals);
 }
 
+/// Literals that consist of one repeated byte: RLE literals section (type 1, 20 bit size).
+fn rle_literals(byte: u8, len: usize, writer: &mut BitWriter<&mut Vec<u8>>) {
+    writer.write_bits(1u8, 2);
+    writer.write_bits(0b11u8, 2);
+    writer.write_bits(len as u32, 20);
+    writer.append_bytes(&[byte]);
+}
+
 fn compress_literals(
     literals: &[u8],
     last_table: Option<&huff0_encoder::HuffmanTable>,
     writer: &mut BitWriter<&mut Vec<u8>>,
 ) -> Option<huff0_encoder::HuffmanTable> {
+    // A Huffman table needs at least two distinct symbols (`distribute_weights` asserts this).
+    // A matcher may hand us literals that all have the same value while the block itself is
+    // not constant; those are stored as RLE literals and no table is remembered.
+    if let Some(first) = literals.first() {
+        if literals.iter().all(|x| x == first) {
+            rle_literals(*first, literals.len(), writer);
+            return None;
+        }
+    }
+
     let reset_idx = writer.index();
 
     let new_encoder_table = huff0_encoder::HuffmanTable::build_from_data(literals);
